@@ -99,4 +99,45 @@ silent("c09-band-label-changed", ["C09"], [(TAB, '    2: ("G1", "1C"),', '    2:
 silent("c09-scan-locals-renamed", ["C09"], [(MSG, "        nsat = 0\n        for idx in range(65):\n            if getattr(self, \"DF394\") >> (64 - idx) & 1:\n                nsat += 1\n                self._satmap[nsat] = prnmap.get(idx, NA)",
    "        count = 0\n        for satid in range(1, 65):\n            if (self.DF394 >> (64 - satid)) & 1 != 0:\n                count = count + 1\n                self._satmap[count] = prnmap.get(satid, NA)\n        nsat = count")], "equivalent rewrite of the satellite scan")
 
+# ----------------------------------------------------------------------------- C08
+fire("c08-poly-bit", ["C08"], HLP, "poly = 0x1864CFB", "poly = 0x1864CF9", "generator constant altered")
+fire("c08-poly-bit2", ["C08"], HLP, "poly = 0x1864CFB", "poly = 0x1864CFA")
+fire("c08-range7", ["C08"], HLP, "for _ in range(8):", "for _ in range(7):")
+fire("c08-shift15", ["C08"], HLP, "crc ^= octet << 16", "crc ^= octet << 15")
+fire("c08-topbit", ["C08"], HLP, "if crc & 0x1000000:", "if crc & 0x800000:")
+silent("c08-final-mask-wide", ["C08"], [(HLP, "return crc & 0xFFFFFF", "return crc & 0x1FFFFFF")], "equivalent: the state is < 2^24 by the inductive invariant")
+fire("c08-final-mask-narrow", ["C08"], HLP, "return crc & 0xFFFFFF", "return crc & 0x7FFFFF")
+fire("c08-init", ["C08"], HLP, "    crc = 0\n    for octet in message:", "    crc = 0xFFFFFF\n    for octet in message:")
+fire("c08-skip-last", ["C08"], HLP, "for octet in message:", "for octet in message[:-1]:")
+fire("c08-gate-and", ["C08", "C01"], RDR, "            if calc_crc24q(message):", "            if calc_crc24q(message[:-1]) and calc_crc24q(message):", "CRC test weakened (survives the test-suite)")
+fire("c08-gate-negated", ["C08", "C01"], RDR, "            if calc_crc24q(message):", "            if not calc_crc24q(message):")
+fire("c08-gate-length-exempt", ["C08", "C01"], RDR, "        if validate & VALCKSUM:", "        if validate & VALCKSUM and len(message) < 1029:", "maximum-length frames skip validation")
+fire("c08-gate-wrong-class", ["C08"], RDR, '                raise RTCMParseError(\n                    f"RTCM3 message invalid - failed CRC', '                raise RTCMStreamError(\n                    f"RTCM3 message invalid - failed CRC')
+fire("c08-slice-includes-crc", ["C08", "C01"], RDR, "payload = message[3:-3]", "payload = message[3:-2]")
+fire("c08-validate-bit", ["C08"], RDR, "        if validate & VALCKSUM:", "        if validate & 2:")
+silent("c08-crc-style", ["C08", "C01"], [(HLP, "        crc ^= octet << 16\n        for _ in range(8):\n            crc <<= 1\n            if crc & 0x1000000:\n                crc ^= poly", "        crc = crc ^ (octet << 16)\n        for _bit in range(8):\n            crc = crc << 1\n            if (crc & 0x1000000) != 0:\n                crc = crc ^ poly")], "equivalent re-write")
+silent("c08-gate-or", ["C08", "C01"], [(RDR, "        if validate & VALCKSUM:\n            if calc_crc24q(message):", "        if validate & VALCKSUM:\n            if calc_crc24q(message) != 0 or len(message) < 6:")], "stricter gate is still a gate")
+silent("c08-gate-merged", ["C08", "C01"], [(RDR, "        if validate & VALCKSUM:\n            if calc_crc24q(message):\n                raise RTCMParseError(\n                    f\"RTCM3 message invalid - failed CRC: {message[-3:]}\"\n                )", "        if validate & VALCKSUM and calc_crc24q(message):\n            raise RTCMParseError(f\"RTCM3 message invalid - failed CRC: {message[-3:]}\")")], "equivalent")
+
+# ----------------------------------------------------------------------------- C01
+fire("c01-gate-mask-07", ["C01"], RDR, "(byte2[0] & ~0x03) == 0", "(byte2[0] & ~0x07) == 0", "gate admits a set reserved bit (survives the test-suite)")
+fire("c01-gate-mask-01", ["C01"], RDR, "(byte2[0] & ~0x03) == 0", "(byte2[0] & ~0x01) == 0", "gate rejects lengths >= 512")
+fire("c01-gate-no-reserved-check", ["C01"], RDR, 'if byte1 == b"\\xd3" and (byte2[0] & ~0x03) == 0:', 'if byte1 == b"\\xd3":')
+fire("c01-size-shift7", ["C01"], RDR, "size = (hdr[1] << 8) | hdr3[0]", "size = (hdr[1] << 7) | hdr3[0]")
+fire("c01-size-masked-8bit", ["C01"], RDR, "size = (hdr[1] << 8) | hdr3[0]", "size = hdr3[0]", "length >= 256 truncated")
+fire("c01-trailer-2", ["C01"], RDR, "crc = self._read_bytes(3)", "crc = self._read_bytes(2)")
+fire("c01-raw-drops-hdr3", ["C01"], RDR, "raw_data = hdr + hdr3 + payload + crc", "raw_data = hdr + payload + crc")
+fire("c01-raw-order", ["C01"], RDR, "raw_data = hdr + hdr3 + payload + crc", "raw_data = hdr + hdr3 + crc + payload")
+fire("c01-short-read-guard", ["C01"], RDR, "if 0 < len(data) < size:  # truncated stream", "if 0 < len(data) < size - 1:  # truncated stream", "a read one byte short is spliced into a frame (survives the test-suite)")
+fire("c01-short-read-removed", ["C01"], RDR, "        if 0 < len(data) < size:  # truncated stream\n            raise RTCMStreamError(\n                \"Serial stream terminated unexpectedly. \"\n                f\"{size} bytes requested, {len(data)} bytes returned.\"\n            )\n", "")
+fire("c01-read-returns-slice", ["C01"], RDR, "        return data\n\n    def _read_line", "        return data[:size]\n\n    def _read_line", "primitive no longer returns the stream's result unmodified")
+fire("c01-slice-3-2", ["C01"], RDR, "payload = message[3:-3]", "payload = message[3:-2]")
+fire("c01-seek-back", ["C01"], RDR, "        hdr3 = self._read_bytes(1)\n", "        hdr3 = self._read_bytes(1)\n        if hasattr(self._stream, \"seek\") and False:\n            self._stream.seek(-1, 1)\n")
+fire("c01-return-ubx", ["C01"], RDR, "                    (raw_data, parsed_data) = self._parse_ubx(bytehdr)\n                    continue", "                    (raw_data, parsed_data) = self._parse_ubx(bytehdr)\n                    parsing = False\n                    continue", "UBX frame returned as if it were RTCM")
+fire("c01-second-assembler-call", ["C01"], RDR, "                    raise RTCMParseError(f\"Unknown protocol header {bytehdr}.\")", "                    (raw_data, parsed_data) = self._parse_rtcm3(bytehdr)\n                    parsing = False", "frames attempted without the header test")
+silent("c01-gate-style", ["C01"], [(RDR, 'if byte1 == b"\\xd3" and (byte2[0] & ~0x03) == 0:', 'if bytehdr[0] == 0xD3 and bytehdr[1] >> 2 == 0:')], "equivalent gate")
+silent("c01-gate-lt4", ["C01"], [(RDR, "(byte2[0] & ~0x03) == 0", "byte2[0] < 4")], "equivalent gate")
+silent("c01-read-bytes-renamed", ["C01", "C02", "C05"], [(RDR, "_read_bytes", "_take")], "private helper renamed") 
+silent("c01-size-style", ["C01"], [(RDR, "size = (hdr[1] << 8) | hdr3[0]", 'size = int.from_bytes(hdr[1:2] + hdr3, "big")')], "equivalent size computation")
+
 VARIANTS = V
